@@ -671,10 +671,13 @@ def consumer_mutates(rec, mode):
 
 
 STREAM_KINDS = ('sim', 'bytesio', 'buffered', 'minimal', 'gzip', 'mmap',
-                'spooled', 'file', 'gzipfile')
+                'spooled', 'file', 'gzipfile', 'rawfile', 'fdfile')
 
 
-def _real_file(data, gz):
+REAL_FILE_KINDS = ('file', 'gzipfile', 'rawfile', 'fdfile')
+
+
+def _real_file(data, how):
     """A real file on disk (removed again as soon as it is open): the kind
     of stream whose fileno() / fstat() mean something."""
     import gzip
@@ -684,9 +687,18 @@ def _real_file(data, gz):
 
     try:
         with os.fdopen(fd, 'wb') as fp:
-            fp.write(gzip.compress(data, 1) if gz else data)
+            fp.write(gzip.compress(data, 1) if how == 'gzipfile' else data)
 
-        return gzip.open(path, 'rb') if gz else open(path, 'rb')
+        if how == 'gzipfile':
+            return gzip.open(path, 'rb')
+        elif how == 'rawfile':
+            # unbuffered: an io.FileIO (a RawIOBase with readinto())
+            return open(path, 'rb', buffering=0)
+        elif how == 'fdfile':
+            # opened from a descriptor: its .name is an int
+            return open(os.open(path, os.O_RDONLY), 'rb')
+
+        return open(path, 'rb')
     finally:
         os.unlink(path)
 
@@ -727,8 +739,8 @@ def open_stream(world, kind, data, actor, buf=None, cap=None,
         st.write(data)
         st.seek(len(pre))
         return st, None
-    elif kind in ('file', 'gzipfile') and len(data) <= 200000:
-        st = _real_file(data, kind == 'gzipfile')
+    elif kind in REAL_FILE_KINDS and len(data) <= 200000:
+        st = _real_file(data, kind)
         st.seek(len(pre))
         return st, None
     elif kind == 'spooled':
@@ -737,7 +749,7 @@ def open_stream(world, kind, data, actor, buf=None, cap=None,
         st.write(data)
         st.seek(len(pre))
         return st, None
-    elif kind in ('gzip', 'mmap', 'file', 'gzipfile'):
+    elif kind in ('gzip', 'mmap') + REAL_FILE_KINDS:
         kind = 'bytesio'
 
     if kind == 'bytesio':
@@ -766,6 +778,21 @@ def open_stream(world, kind, data, actor, buf=None, cap=None,
             return MinimalStream(h), h
 
         return h, h
+
+
+LOAD_STREAMS = [None] * 6 + ['bytesio', 'buffered', 'gzip',
+                             'mmap', 'spooled', 'file', 'gzipfile',
+                             'rawfile', 'fdfile']
+
+
+def load_stream(world, kind, data, actor):
+    """The stream a DOM loader is handed: the simulated handle unless the
+    scenario names another kind of stream (see STREAM_KINDS)."""
+    if kind in STREAM_KINDS and kind != 'sim':
+        world.ev(actor, 'stream', kind)
+        return open_stream(world, kind, data, actor)[0]
+
+    return SimReadHandle(world, data, actor)
 
 
 class _ViaIterSections(object):
@@ -1094,10 +1121,15 @@ class DomLoadActor(Actor):
                             x.get('reader', self.id) == self.id:
                         sea = int(x['call'])
 
-                self.handle = SimReadHandle(world, self.data, self.id,
-                                            read_error_at=rea,
-                                            seek_error_at=sea,
-                                            nonseekable=nsk)
+                if rea is None and sea is None and not nsk and \
+                   self.spec.get('stream'):
+                    self.handle = load_stream(world, self.spec['stream'],
+                                              self.data, self.id)
+                else:
+                    self.handle = SimReadHandle(world, self.data, self.id,
+                                                read_error_at=rea,
+                                                seek_error_at=sea,
+                                                nonseekable=nsk)
 
                 if via == 'hook':
                     # the documented reader_cls hook: a DiffXReader subclass
